@@ -202,6 +202,27 @@ fn history<S: CredentialStore<PasskeyItem = Passkey> + Sync + Send>(rep: &mut Re
                 check_auth(rep, &case, &out, &x, &y, &challenge, &app, counter, u8::from(pres));
                 rep.count("authentications");
                 rep.nontrivial(fnv(format!("auth|{}|{counter}|{}|{kind:?}", handle.len(), u8::from(pres)).as_bytes()));
+                // a token that keeps its counter with the credential records it through the public constructor
+                // `Passkey::from_u2f_auth_request` and the store's update: the credential is still the one for
+                // that application and key handle, and the key handle keeps working
+                if rng.chance(1, 3) {
+                    let rp_text = crate::oracle::b64url(&app);
+                    let held = block_on(auth.store().find_credentials(Some(&[crate::util::descriptor(&handle)]), &rp_text)).ok().and_then(|v| v.into_iter().find(|p| p.credential_id.as_slice() == handle.as_slice() && p.rp_id == rp_text));
+                    if let Some(held) = held {
+                        let req = AuthenticationRequest { parameter: AuthenticationParameter::from(param), challenge, application: app, key_handle: handle.clone() };
+                        let p = Passkey::from_u2f_auth_request(&req, counter, &held.key);
+                        rep.count("counter_records_through_the_public_constructor");
+                        if p.credential_id.as_slice() != handle.as_slice() || p.rp_id != held.rp_id {
+                            rep.violate("Passkey::from_u2f_auth_request does not describe the credential for that application and key handle", format!("credential id {} (key handle {}), RP ID {:?} (stored {:?})", hex_short(&p.credential_id), hex_short(&handle), p.rp_id, held.rp_id), case.clone());
+                        } else if block_on(auth.store_mut().update_credential(p)).is_ok() {
+                            match catch(|| do_auth(auth, 0x03, challenge, app, &handle, counter, Flags::UP)) {
+                                Ok(Ok(out2)) => check_auth(rep, &case, &out2, &x, &y, &challenge, &app, counter, u8::from(Flags::UP)),
+                                Ok(Err(e)) => rep.violate("u2f authentication with a registered key handle failed", format!("{e} (after the counter was recorded through from_u2f_auth_request and update_credential)"), case.clone()),
+                                Err((sig, d)) => rep.violate(&format!("u2f authenticate {sig}"), d, case.clone()),
+                            }
+                        }
+                    }
+                }
             }
         }
         // unknown key handle fails
